@@ -721,7 +721,10 @@ def mon_known_C04(case, obs):
     """recorded defects of the pinned tree around worker loss (see known_findings.json)"""
     out = []
     had_marker = set()
+    ever_acked = {}        # job -> every worker that ever acknowledged a part of it (a part may be acknowledged twice)
     for n, ((e, o), (acked, done)) in enumerate(zip(zip(case['events'], obs), part_books(case, obs))):
+        if e[0] == 'ack':
+            ever_acked.setdefault(e[1], set()).add(e[3])
         live = {w[0] for w in o['workers']}
         for k, j in enumerate(o['jobs']):
             # D4: ordered imap stores the loss under the key None: the consumer is never told
@@ -732,12 +735,12 @@ def mon_known_C04(case, obs):
                 had_marker.add(k)
                 gone = [p for p in j['wpids'] if p not in live]
                 unfinished = [i for i, p in acked.get(k, {}).items() if p in gone and i not in done.get(k, set())]
-                foreign = [p for p in gone if p not in acked.get(k, {}).values()]
+                foreign = [p for p in gone if p not in ever_acked.get(k, set())]
                 if foreign and not unfinished:
                     # not D3: the handle lists a worker that never acknowledged any part of THIS job
                     out.append(('C04:job-marked-lost-for-a-worker-that-never-accepted-it',
                                 '%s job %d is marked lost at event %d because of the exit of worker(s) %s, which never acknowledged a part '
-                                'of it (its parts were acknowledged by %s)' % (j['kind'], k, n, foreign, sorted(set(acked.get(k, {}).values())))))
+                                'of it (its parts were acknowledged by %s)' % (j['kind'], k, n, foreign, sorted(ever_acked.get(k, set())))))
                 elif gone and not unfinished:
                     out.append(('C04:spurious-loss-finished-parts',
                                 '%s job %d marked lost at event %d although workers %s had finished every part they accepted'
@@ -2247,7 +2250,13 @@ def real_scenarios(res, pid, specs):
             if r['outcome'][:2] != ['exc', 'WorkerLostError'] or \
                     (uncaught and 'signal %d' % sp.get('sig', 9) not in ' '.join(r['outcome'][2])):
                 alarm('C04:real-loss-not-reported', 'outcome %s' % r['outcome'])
-            if r['other'][0] != 'ok' or r['later'] != ['ok', 14] or r['size'] != 2:
+            if (r['other'][0] != 'ok' or r['later'] != ['ok', 14]) and (r.get('diag') or {}).get('out_wlock') == 'HELD':
+                # the repaired defect D28, if it is back: the exiting worker was killed by the parent's answer to
+                # its DEATH message while it held the result queue's write lock
+                alarm('C04:pool-wedged-write-lock-lost-by-exiting-worker',
+                      'after the death of one worker (signal %s) no result of any other job arrives: the result queue write lock is held by nobody alive; %s'
+                      % (sp.get('sig', 9), json.dumps(r.get('diag'))))
+            elif r['other'][0] != 'ok' or r['later'] != ['ok', 14] or r['size'] != 2:
                 alarm('C04:real-other-jobs-affected', 'other %s later %s size %s' % (r['other'], r['later'], r['size']))
         elif k == 'recycle':
             if r['unresolved']:
